@@ -136,4 +136,83 @@ theorem src_meta_time_signature_decode (o1 o2 o3 o4 : Int) (data : List Nat) :
     simp [hb, Src.MetaSpec_time_signature.decode, metaDecodePayload, natsToInts, Except.map,
       pure, Except.pure, bind, Except.bind, PyVal.nat, Py.pow]
 
+/-! ### the power-of-two test of `time_signature` (`value & (value - 1)`) -/
+
+theorem testBit_top (x k : Nat) (h1 : 2 ^ k ≤ x) (h2 : x < 2 ^ (k + 1)) : x.testBit k = true := by
+  rw [Nat.testBit_eq_decide_div_mod_eq]
+  have : x / 2 ^ k = 1 := Nat.div_eq_of_lt_le (by omega) (by rw [Nat.pow_succ] at h2; omega)
+  simp [this]
+
+/-- `n & (n - 1) == 0` exactly for the powers of two (n ≥ 1): the bit trick of the source is the model's exact test -/
+theorem and_pred_eq_zero_iff (n : Nat) (h : 0 < n) : n &&& (n - 1) = 0 ↔ 2 ^ Nat.log2 n = n := by
+  have hn : n ≠ 0 := by omega
+  have hle := Nat.log2_self_le hn
+  have hlt := @Nat.lt_log2_self n
+  constructor
+  · intro hz
+    by_cases heq : 2 ^ Nat.log2 n = n
+    · exact heq
+    · exfalso
+      have h1 : 2 ^ Nat.log2 n ≤ n - 1 := by omega
+      have h2 : n - 1 < 2 ^ (Nat.log2 n + 1) := by omega
+      have b1 := testBit_top n _ hle hlt
+      have b2 := testBit_top (n - 1) _ h1 h2
+      have := Nat.testBit_and n (n - 1) (Nat.log2 n)
+      rw [hz, Nat.zero_testBit, b1, b2] at this
+      simp at this
+  · intro heq
+    have : n &&& (2 ^ Nat.log2 n - 1) = n % 2 ^ Nat.log2 n := Nat.and_two_pow_sub_one_eq_mod n _
+    rw [heq] at this
+    rw [this, Nat.mod_self]
+
+theorem isPow2_iff (n : Nat) (h : 0 < n) : isPow2 n = true ↔ n &&& (n - 1) = 0 := by
+  rw [and_pred_eq_zero_iff n h, log2_eq_log2Nat]
+  have hn : n ≠ 0 := by omega
+  simp [isPow2, hn]
+
+/-- `MetaSpec_time_signature.check`: range checks and the power-of-two test -/
+theorem src_meta_time_signature_check (v : Int) :
+    Src.MetaSpec_time_signature.check "denominator" v = metaCheckAttr .time_signature 1 (.int v) ∧
+    (∀ name i, name ≠ "denominator" → i ≠ 1 →
+      Src.MetaSpec_time_signature.check name v = metaCheckAttr .time_signature i (.int v)) := by
+  constructor
+  · simp only [Src.MetaSpec_time_signature.check, metaCheckAttr, src_check_int, Py.pow, if_true, bind, Except.bind,
+      pure, Except.pure]
+    have hp : ¬ ((255 : Int) < 0) := by omega
+    simp only [hp, if_false, beq_self_eq_true, if_true]
+    have h255 : (2 : Int) ^ (255 : Int).toNat = 2 ^ 255 := rfl
+    rw [h255]
+    cases hc : checkInt (.int v) 1 (2 ^ 255) with
+    | error e => rfl
+    | ok u =>
+      simp only []
+      have hr : 1 ≤ v ∧ v ≤ 2 ^ 255 := by
+        by_cases hh : 1 ≤ v ∧ v ≤ 2 ^ 255
+        · exact hh
+        · exfalso
+          have : checkInt (.int v) 1 (2 ^ 255) = .error .ValueError := by
+            show (if 1 ≤ v ∧ v ≤ 2 ^ 255 then Except.ok () else Except.error Err.ValueError) = _
+            rw [if_neg hh]
+          rw [this] at hc
+          cases hc
+      obtain ⟨n, rfl⟩ := Int.eq_ofNat_of_zero_le (show 0 ≤ v by omega)
+      have hn : 0 < n := by omega
+      have hsub : ((n : Int) - 1) = ((n - 1 : Nat) : Int) := by omega
+      have hl : land (n : Int) ((n : Int) - 1) = ((n &&& (n - 1) : Nat) : Int) := by rw [hsub]; rfl
+      simp only [Int.ofNat_eq_natCast, hl, Int.toNat_natCast]
+      by_cases hz : n &&& (n - 1) = 0
+      · have hpw := (isPow2_iff n hn).2 hz
+        simp [hz, hpw]
+      · have hpw : isPow2 n = false := by
+          cases hh : isPow2 n with
+          | false => rfl
+          | true => exact absurd ((isPow2_iff n hn).1 hh) hz
+        have hz' : ¬ (((n &&& (n - 1) : Nat) : Int) = 0) := by omega
+        simp [hz', hz, hpw, throw, throwThe, MonadExceptOf.throw]
+  · intro name i hname hi
+    have hb : (name == "denominator") = false := by simpa using hname
+    simp only [Src.MetaSpec_time_signature.check, metaCheckAttr, hb, hi, Bool.false_eq_true, if_false, src_check_int,
+      bind, Except.bind, pure, Except.pure]
+    cases checkInt (.int v) 0 255 <;> rfl
+
 end Mido
